@@ -349,4 +349,58 @@ def stepC (reg : List TxRec) (pc : PoolC) : OpC → PoolC
 
 def runC (reg : List TxRec) (pc : PoolC) (ops : List OpC) : PoolC := ops.foldl (stepC reg) pc
 
+
+/-! ### time- and size-based removal (config.RemoveFutureTx, AccountQueue, Lifetime, GoodTxDropTime)
+
+These run at the END of a `promoteExecutables` of a sender (`Cap`), on the 10 s eviction tick, and at the START of `Update`
+(`filterTxs`); they only remove entries, so they are modelled as separate steps applied by the driver around the core
+functions (the queues of different senders are independent, so capping after the whole promotion equals capping inside it). -/
+
+/-- `txSortedMap.Cap(k)` for sender `a`: keep the `k` lowest nonces of its queue, forget the rest -/
+def capAccount (p : Pool) (a k : Nat) : Pool :=
+  let keep := fun (e : E) => !(e.t.from_ == a) ||
+    decide ((p.fut.filter (fun x => x.t.from_ == a && decide (x.t.nonce < e.t.nonce))).length < k)
+  { p with fut := p.fut.filter keep, cache := dropIds p.cache (p.fut.filter (fun e => !keep e)) }
+
+def capAll (p : Pool) (k : Nat) : Nat → Pool
+  | 0 => p
+  | n + 1 => capAccount (capAll p k n) n k
+
+/-- the eviction tick with a Lifetime every queue has outlived: every queued transaction goes (`removeFutureTx`) -/
+def evictAll (p : Pool) : Pool := { p with fut := [], cache := dropIds p.cache p.fut }
+
+/-- `filterTxs` when every pending transaction is older than GoodTxDropTime: what the block did not take is dropped -/
+def dropTimedOut (p : Pool) (ids : List Nat) : Pool :=
+  { p with good := p.good.filter (fun e => ids.contains e.id), utxo := p.utxo.filter (fun e => ids.contains e.id),
+           cache := dropIds p.cache ((p.good ++ p.utxo).filter (fun e => !ids.contains e.id)) }
+
+
+/-! ### the special lane (specGoodTxs: MultiSignAccountTx)
+
+One more list, filled by `addLocalSpecTx` (state check on the nonce of the fixed multi-sign address, no fee, no future
+queue: nonce-too-high is an error; the list is capped by config.SpecSize AFTER the state check), rechecked by
+`recheckSpecTxs` on Update and returned by `Reap` after goodTxs and utxoTxs; its whole length is taken off the budget of
+goodTxs.  The lane state lives beside `Pool` (the driver keeps it); `reapS` is `Reap` with that lane. -/
+
+def reapS (p : Pool) (spec : List E) (specSize : Nat) (max : Nat) : List E :=
+  if max = 0 then []
+  else
+    let m := if max > p.cfg.maxReap then p.cfg.maxReap else max
+    let us := collect p.cfg.utxoSize p.utxo p.cfg.utxoSize 0
+    let ss := collect p.cfg.utxoSize spec specSize 0
+    let gs := collect p.cfg.utxoSize p.good (m - ss.length - us.length) 0
+    gs ++ us ++ ss
+
+/-- the lane's transactions executed in block order from the committed multi-sign nonce: the nonce after, or none -/
+def specRun : Nat → List TxRec → Option Nat
+  | n, [] => some n
+  | n, t :: rest => if t.nonce = n then specRun (n + 1) rest else none
+
+/-- `recheckSpecTxs`: keep what still carries the due nonce, in order; returns (kept, speculative nonce) -/
+def specRecheck : Nat → List E → List E × Nat
+  | n, [] => ([], n)
+  | n, e :: rest =>
+    if e.t.nonce = n then let r := specRecheck (n + 1) rest; (e :: r.1, r.2)
+    else specRecheck n rest
+
 end Model.Mempool
